@@ -83,6 +83,7 @@ func runC17(c *Ctx) {
 	up := "client.unpackPPTPayload"
 	c.Guard(r1, up, "decoded passthru payload used", `^return:local:payloadTyped\.Arguments, local:payloadTyped\.ArgumentsKw, nil$|^return:.*payloadTyped.*Arguments`, 1, clause("payload pointer not nil", F(`^\(local:payloadTyped == nil\)$`), F(`^\(.*payloadTyped.* == nil\)$`)))
 	rulePayloadDecodeTarget(c, r1)
+	ruleNoNilMessage(c, r1) // the client dereferences what the transport delivers
 	c.R.Floor(r1, 9)
 
 	const r2 = "C17.R2 session lock released on every path, never held across a blocking operation"
